@@ -607,6 +607,11 @@ class Built(object):
                         'call_n': stack[-1]['n'] if stack[-1] is not None else None,
                         # what service code sees when it asks for "the exception currently being handled" (error reports, bare raise)
                         'ambient': type(_sys.exc_info()[1]).__name__ if _sys.exc_info()[1] is not None else None})
+            if built.consume('body_keep_context'):
+                # the wrapped function schedules follow-up work: it keeps a copy of the current execution context (as call_soon /
+                # create_task / to_thread do) in which that work will run later
+                import contextvars
+                built.kept_context = contextvars.copy_context()
             if built.consume('body_discard') and built.recorder is not None:
                 built.recorder.discard_recording()
             if built.consume('body_force') and built.recorder is not None:
@@ -868,7 +873,7 @@ class Built(object):
                     key_fails = d['io'] == 'in' and cap == 'all'
                 # 'badkey_key': the unencodable argument is part of an input's key, so the key cannot be built
                 self.fault_log.append((pos, 'badkey_key' if key_fails else 'badkey'))
-            elif fault in ('handler_raises', 'resolver_raises', 'body_discard', 'body_force', 'body_raise_user',
+            elif fault in ('handler_raises', 'resolver_raises', 'body_discard', 'body_force', 'body_raise_user', 'body_keep_context',
                            'body_raise_interrupt', 'value_unencodable', 'body_raise_unencodable'):
                 self.arm(fault)
             try:
